@@ -48,7 +48,8 @@ LEAF_KINDS = ["int", "float", "bool", "none", "str", "path", "list", "tuple", "d
               "npscalar", "tensor", "module", "numseq"]
 TYPE_POOL = ["ndarray", "Tensor", "list", "tuple", "dict", "set", "str", "int", "float", "bool",
              "Node", "Leaf", "Other", "Path", "Module"]
-C14_NAMES = ["a", "b", "c", "data", "_p", "x1", "info", "child", "p", "arr", "t", "k-1", "a.b"]
+C14_NAMES = ["a", "b", "c", "data", "_p", "x1", "info", "child", "p", "arr", "t", "k-1", "a.b",
+             "ab", "arr2", "_p_", ".h", "fa"]
 
 
 def _types(names):
@@ -67,8 +68,8 @@ def setup():
 
 
 def _gen_tree(rng, opts, depth, maxdepth):
-    cls = rng.pick(["Plain", "Node", "Leaf", "Other"]) if depth else rng.pick(["Plain", "Node",
-                                                                               "AttrsLike"])
+    cls = rng.pick(["Plain", "Node", "Leaf", "Other", "Plain", "Node", "AttrsLike"]) if depth else \
+        rng.pick(["Plain", "Node", "AttrsLike"])
     if cls == "AttrsLike":
         names = ["fa", "fb", "fc"]
     else:
